@@ -220,6 +220,26 @@ def rule_detached_counterparts(ctx):
         ctx.check(ok, fq, f"{what} has its owner invalidated", f"nothing looks for {what}: the owner is recycled and skipped later, the tree/pattern is attached again next to the conflicting declaration, and the plan that a build from scratch rejects is accepted", "detached lookup + after_lost_product", where=ctx.where_of(ctx.prog.func(fq)))
 
 
+def rule_invalidation_for_every_role(ctx):
+    """R-C08-6 (second part): the invalidation of detached tree owners happens for every role of the declared file."""
+    df = ctx.prog.func("workflow.Workflow._declare_file")
+    n = 0
+    for tr, st in flow.paths_of(df):
+        created = [k for k, e in enumerate(tr) if e[0] == "call" and e[1] == "self.create"]
+        if not created:
+            continue
+        tests = [(e[1], e[2]) for e in tr[:created[0]] if e[0] == "test"]
+        foreign = ("not isinstance(creator, StaticTree)", True) in tests or ("isinstance(creator, StaticTree)", False) in tests
+        if not foreign:
+            continue
+        n += 1
+        inv = any(e[0] == "call" and e[1] == "self._invalidate_detached_tree_creators" for e in tr[:created[0]])
+        if not inv:
+            ctx.bad(df.fq, "every declaration by a creator that is not a tree invalidates detached tree owners over the path", f"a path through {[t for t in tests if 'file_state' in t[0]][:3]} creates the file without looking for a detached tree above it: a static file (or product) declared below the tree of a dropped step is accepted, the step is later recycled and skipped, and tree and file end up attached side by side", where=ctx.where_of(df))
+            return
+    ctx.check(n > 0, df.fq, "every declaration by a creator that is not a tree invalidates detached tree owners over the path", "no creating path found", f"{n} paths")
+
+
 def rule_glob_vs_declared_products(ctx):
     """R-C08-8: the rule 'a glob pattern may only match static files' is enforced in both arrival orders for every
     declared product, on disk or not: define_step/amend_step test the regex of every registered pattern against the
@@ -356,11 +376,13 @@ RULES = [
     Rule("R-C08-9", "volatile outputs against detached consumers and the recycle short-circuit", rule_volatile_vs_detached_consumer, min_instances=4),
     Rule("R-C08-7", "nested trees, undeclared inputs and volatile memories against detached declarations", rule_detached_counterparts_more, min_instances=3),
     Rule("R-C08-6", "declarations that conflict with a detached tree or pattern invalidate its owner", rule_detached_counterparts, min_instances=2),
+    Rule("R-C08-6b", "the invalidation covers every role of the declared file", rule_invalidation_for_every_role, min_instances=1),
     Rule("R-C08-5", "a claim taken from a detached owner is re-examined when the owner's plans run again", rule_lost_claim_is_rechecked, min_instances=4),
     Rule("R-C08-4", "idempotent redeclaration", rule_idempotent, min_instances=6),
 ]
 
 MUTANTS = [
+    Mutant("tree-owner-invalidated-for-products-only", "workflow.py", in_function("Workflow._declare_file", replace_once("            self._invalidate_detached_tree_creators(creator, path)\n", "            if file_state != FileState.UNCONFIRMED:\n                self._invalidate_detached_tree_creators(creator, path)\n")), ("R-C08-6b",)),
     Mutant("volatile-ignores-detached-consumers", "workflow.py", in_function("Workflow._declare_file", replace_once("            for sink in file.sinks(Step, include_detached=True):\n                sink.after_lost_product()\n", "")), ("R-C08-9",)),
     Mutant("volatile-invalidates-attached-only", "workflow.py", in_function("Workflow._declare_file", replace_once("            for sink in file.sinks(Step, include_detached=True):\n", "            for sink in file.sinks(Step):\n")), ("R-C08-9",)),
     Mutant("recycle-keeps-volatile-input", "step.py", in_function("Step.can_recycle", replace_once("        if any(r.state == FileState.VOLATILE and not r.detached for r in self.inp_paths()):\n            return False\n", "")), ("R-C08-9",)),
